@@ -38,6 +38,7 @@ func main() {
 	t.walked[t.root.Types] = t.root
 	t.index()
 	t.collectFuncFields()
+	t.collectMutexAliases()
 
 	// roots
 	mux := t.lookupNamed("Muxer")
@@ -387,4 +388,74 @@ func (t *tool) reachFrom(sel func(string) bool, role string) []string {
 	}
 	sort.Strings(r)
 	return r
+}
+
+// collectMutexAliases finds the *sync.Mutex fields of the root package that alias the muxer mutex:
+// every place that sets such a field (composite literals only; an assignment is fatal) must set it
+// to &m.mutex with m the *Muxer receiver of Start.
+func (t *tool) collectMutexAliases() {
+	t.muAlias = map[string]bool{}
+	bad := map[string]string{}
+	p := t.root
+	isMutexPtr := func(tp types.Type) bool {
+		pt, ok := tp.(*types.Pointer)
+		if !ok {
+			return false
+		}
+		n, ok := pt.Elem().(*types.Named)
+		return ok && n.Obj().Pkg() != nil && n.Obj().Pkg().Path() == "sync" && n.Obj().Name() == "Mutex"
+	}
+	for _, f := range p.Files {
+		ast.Inspect(f, func(n ast.Node) bool {
+			switch x := n.(type) {
+			case *ast.CompositeLit:
+				nt := namedOf(p.Info.Types[x].Type)
+				if nt == nil {
+					return true
+				}
+				for _, el := range x.Elts {
+					kv, ok := el.(*ast.KeyValueExpr)
+					if !ok {
+						continue
+					}
+					id, ok := kv.Key.(*ast.Ident)
+					if !ok {
+						continue
+					}
+					fld := fieldOf(nt, id.Name)
+					if fld == nil || !isMutexPtr(fld.Type()) {
+						continue
+					}
+					fk := t.typeName(nt) + "." + id.Name
+					ok = false
+					if u, isU := kv.Value.(*ast.UnaryExpr); isU {
+						if sel, isS := u.X.(*ast.SelectorExpr); isS {
+							if s, has := p.Info.Selections[sel]; has && s.Kind() == types.FieldVal {
+								if on := namedOf(s.Recv()); on != nil && t.typeName(on) == "Muxer" && sel.Sel.Name == "mutex" {
+									ok = true
+								}
+							}
+						}
+					}
+					if ok {
+						if _, isBad := bad[fk]; !isBad {
+							t.muAlias[fk] = true
+						}
+					} else {
+						bad[fk] = t.pos(kv.Pos())
+						delete(t.muAlias, fk)
+					}
+				}
+			case *ast.AssignStmt:
+				for _, l := range x.Lhs {
+					if sel, ok := l.(*ast.SelectorExpr); ok {
+						if s, has := p.Info.Selections[sel]; has && s.Kind() == types.FieldVal && isMutexPtr(s.Type()) {
+							fatalf("%s: a mutex pointer field is assigned outside a composite literal", t.pos(x.Pos()))
+						}
+					}
+				}
+			}
+			return true
+		})
+	}
 }
